@@ -27,7 +27,7 @@ ASSUMPTIONS = ["buffer ids are opaque: the model only requires an id not to "
                "be outstanding when handed out",
                "an unbuffered packet-in carries the whole frame whatever "
                "max_len / miss_send_len say"]
-REQUIRED = ["histories_in_which_time_passes_with_buffers_outstanding", "packet_ins", "buffered", "unbuffered_pool_full", "released_by_packet_out",
+REQUIRED = ["stored_packets_sent_through_the_table_again", "histories_in_which_time_passes_with_buffers_outstanding", "packet_ins", "buffered", "unbuffered_pool_full", "released_by_packet_out",
             "released_by_flow_mod", "released_by_rejected_flow_mod", "flow_mod_modify_with_buffer", "rebuffered_during_release", "stale_uses",
             "bogus_uses", "truncated",
             "ids_reused_after_release", "advertised_buffer_counts_read",
@@ -77,7 +77,19 @@ ACTS = [[dict(type=0, port=2, max_len=0)],
         [dict(type=8, nw_tos=0x28),
          dict(type=0, port=OA.OFPP_CONTROLLER, max_len=0xffff),
          dict(type=7, nw_addr=0xc0a80001), dict(type=9, tp_port=80),
-         dict(type=0, port=OA.OFPP_FLOOD, max_len=0)]]
+         dict(type=0, port=OA.OFPP_FLOOD, max_len=0)],
+        # the stored packet is sent through the table again (packet_out only):
+        # it misses once more - or hits one of the send-to-controller entries -
+        # and is announced anew, with a buffer of its own; what the rest of
+        # the list rewrites afterwards is not what that buffer holds
+        [dict(type=0, port=OA.OFPP_TABLE, max_len=0),
+         dict(type=4, dl_addr=b"\x0a" * 6), dict(type=0, port=3, max_len=0)],
+        [dict(type=5, dl_addr=b"\x0b" * 6), dict(type=0, port=OA.OFPP_TABLE, max_len=0),
+         dict(type=6, nw_addr=0x01020304), dict(type=9, tp_port=53),
+         dict(type=4, dl_addr=b"\x0c" * 6), dict(type=0, port=2, max_len=0)],
+        [dict(type=0, port=OA.OFPP_TABLE, max_len=0)],
+        [dict(type=0, port=2, max_len=0), dict(type=0, port=OA.OFPP_TABLE, max_len=0),
+         dict(type=1, vlan_vid=7), dict(type=0, port=3, max_len=0)]]
 
 
 def frame (uid, dst, size):
@@ -262,6 +274,8 @@ def run_history (case, rep):
           fire("dropping a buffered packet produced output", ""); return True
     elif k in ("po", "fm", "fmrej", "stale", "bogus"):
       acts = ACTS[op[2] % len(ACTS)]
+      if k != "po" and any(a["type"] == 0 and a["port"] == OA.OFPP_TABLE for a in acts):
+        acts = ACTS[0]          # (only a packet_out may send to the table)
       both = False
       if k in ("po", "fm", "fmrej"):
         if not outstanding: continue
@@ -390,7 +404,15 @@ def run_history (case, rep):
         for spec, fr, ml in OA.run(raw, acts):
           e = OA.expand(spec, in_port, cfg)
           if isinstance(e, list): exp += [(p, fr) for p in e]
-          elif e == "controller": to_ctl.append((fr, ml))
+          elif e == "controller": to_ctl.append((fr, ml, 1))
+          elif e == "table":
+            # through the table again, as it is at this point of the list: a
+            # send-to-controller entry for its destination, or a miss
+            rep.count("stored_packets_sent_through_the_table_again")
+            d_ = bytes(fr[0:6])
+            if d_ in CTRL_DST: to_ctl.append((fr, CTRL_MAXLEN[CTRL_DST.index(d_)], 1))
+            elif quiet and in_port == quiet: pass
+            else: to_ctl.append((fr, miss_len, 0))
         pins = [m for m in msgs if m["name"] == "packet_in"]
         if k == "fmrej":
           # whether the packet of a refused flow_mod is still sent through the
@@ -410,8 +432,8 @@ def run_history (case, rep):
                   [(p, b[14:18].hex()) for p, b in exp]))
             return True
           else:
-            for m, (fr, ml) in zip(pins, to_ctl):
-              if not judge_pin(m, fr, in_port, 1, ml, releasing=1): return True
+            for m, (fr, ml, rs) in zip(pins, to_ctl):
+              if not judge_pin(m, fr, in_port, rs, ml, releasing=1): return True
           if len(outstanding) > pool:
             fire("more packets stored than the advertised buffer count",
                  "%d > %d" % (len(outstanding), pool)); return True
@@ -420,9 +442,9 @@ def run_history (case, rep):
           fire("output to the controller while using a buffer did not produce "
                "a packet-in", "%d packet-ins, %d expected" % (len(pins), len(to_ctl)))
           return True
-        for m, (fr, ml) in zip(pins, to_ctl):
+        for m, (fr, ml, rs) in zip(pins, to_ctl):
           rep.count("rebuffered_during_release")
-          if not judge_pin(m, fr, in_port, 1, ml, releasing=1): return True
+          if not judge_pin(m, fr, in_port, rs, ml, releasing=1): return True
         if sorted(out) != sorted(exp):
           fire("using a buffer id did not emit the stored packet through the "
                "given actions",
